@@ -14,3 +14,22 @@ Proof. induction closes as [|c t IH]; intros prev Hp Hf; cbn [bench_returns prod
 (* total return = final unit net value - 1 = compounded daily returns - 1 *)
 Theorem total_return_compounds navs : Forall (fun n => ~ n == 0) navs -> total_return_of navs == compound 1 navs - 1.
 Proof. intros H. unfold total_return_of. rewrite (compound_telescopes navs 1); [field|lra|assumption]. Qed.
+
+(* a one-instrument benchmark: whatever its (non-zero) weight, the benchmark's daily return is the instrument's, so its total return is the
+   ratio of the instrument's closes *)
+Lemma bench_day_single w r : ~ w == 0 -> bench_day [w] [r] == r.
+Proof. intros H. unfold bench_day. cbn [wsum qsum]. field. lra. Qed.
+Lemma prod1_ext a b : Forall2 Qeq a b -> prod1 a == prod1 b.
+Proof. induction 1 as [|x y s t E _ IH]; cbn [prod1]; [reflexivity|rewrite E, IH; reflexivity]. Qed.
+Lemma bench_series_single w rs : ~ w == 0 -> Forall2 Qeq (bench_series [w] (transpose1 rs)) rs.
+Proof. intros H. induction rs as [|r t IH]; cbn; constructor; [apply bench_day_single; assumption|exact IH]. Qed.
+Theorem weighted_single_benchmark w closes prev : ~ w == 0 -> ~ prev == 0 -> Forall (fun c => ~ c == 0) closes ->
+  prod1 (bench_series [w] (transpose1 (bench_returns prev closes))) == lastq prev closes / prev.
+Proof. intros Hw Hp Hc. rewrite (prod1_ext _ _ (bench_series_single w (bench_returns prev closes) Hw)). apply benchmark_telescopes; assumption. Qed.
+(* scaling every weight by the same non-zero factor does not change the benchmark (only the proportions matter) *)
+Lemma wsum_scale k ws xs : wsum (map (Qmult k) ws) xs == k * wsum ws xs.
+Proof. revert xs. induction ws as [|w t IH]; intros [|x xs]; cbn [map wsum]; try ring. rewrite IH. ring. Qed.
+Lemma qsum_scale k ws : qsum (map (Qmult k) ws) == k * qsum ws.
+Proof. induction ws as [|w t IH]; cbn [map qsum]; [ring|rewrite IH; ring]. Qed.
+Theorem bench_day_scale k ws xs : ~ k == 0 -> ~ qsum ws == 0 -> bench_day (map (Qmult k) ws) xs == bench_day ws xs.
+Proof. intros Hk Hs. unfold bench_day. rewrite wsum_scale, qsum_scale. field. split; assumption. Qed.
